@@ -28,3 +28,6 @@ ASSUMPTIONS = [
     "layouts with 1 or 2 polarisations, which this reader cannot read in full on the pinned tree, are excluded as the statement says ('that the reader opens and can read in full'); a four-polarisation file that fails to open or read is a violation, not an exclusion",
     "whole-file read vs model with 1e-5 relative tolerance; position independence asserted bitwise",
 ]
+
+# dimensions added in seeded rounds 6 and 7
+PROBES = list(PROBES) + ["twin-compared:fold", "twin-compared:dedisperse", "twin-compared:compute_stats", "twin-compared:read_chan", "bandwidth-card-sign-differs-from-the-frequency-table", "single-row-file", "scales-offsets-weights-differ-from-row-to-row"]
